@@ -370,8 +370,16 @@ def to_wire(lines, rng, p=0.6):
     """send a share of the deliveries through the real gorums handlers as (possibly mutilated) wire messages"""
     ids = {}
     out = []
+    blocks = []
     for l in lines:
         t = l.split()
+        if t[0] == "block" and len(t) > 1:
+            blocks.append(t[1])
+        if blocks and rng.random() < 0.06:
+            # block-fetch requests with a hash field of any length (the handler must answer, never crash)
+            b = rng.choice(blocks + ["G"])
+            spec = rng.choice([f"blk:{b}", f"blk:{b}/31", f"blk:{b}/3", f"blk:{b}/0", f"blk:{b}/33", f"blk:{b}/32", "nil", "empty", f"blk:{b}/64"])
+            out.append("wire requestblock " + spec)
         if t[0] == "timeout" and len(t) > 2:
             for kv in t[2:]:
                 if kv.startswith("id="):
